@@ -232,6 +232,7 @@ def Op.name : Op → String
   | .discover .. => "discover" | .request .. => "request" | .decline .. => "decline" | .release .. => "release"
   | .addStatic .. => "addStatic" | .updStatic .. => "updStatic" | .rmStatic .. => "rmStatic"
   | .sleep .. => "sleep" | .restart => "restart" | .reorder .. => "reorder"
+  | .resetLeases => "resetLeases"
 
 /-- Where a clause broke: the operation and, for the static-lease API, its error class. -/
 def atOp (op : Op) (r : Reply) : String :=
